@@ -42,6 +42,8 @@ def case(draw):
     mode = draw(st.sampled_from(["ex", "vi", "vi"]))
     nfiles = draw(st.sampled_from([1, 1, 1, 2, 3]))
     names = gen.FILES[:nfiles]
+    if draw(st.integers(0, 7)) == 0:
+        names = [gen.LONGNAME] + names[1:]        # % and # expand to a 200-character name
     files = {n: draw(gen.buffer_text()) for n in names}
     if draw(st.integers(0, 5)) == 0:
         files.pop(names[0])           # first file does not exist
